@@ -18,7 +18,9 @@ TSpec == TInit /\ [][TNext]_tvars
 Done == l = Len(Doc) + 1
 SeqOfSet(S) == SetToSeq(S)
 Report == /\ (Done => PrintT(ToJson([cid |-> Batch[tid].cid, sounding |-> SeqOfSet(KSounding), rests |-> SeqOfSet(KRests), bars |-> kbars,
-                                      attrs |-> kattrs, dens |-> SeqOfSet(KDens), bad |-> SeqOfSet(kbad), aligned |-> Aligned])))
+                                      attrs |-> kattrs, dens |-> SeqOfSet(KDens),
+                                      bad |-> SeqOfSet(kbad \cup (IF KTiesContiguous THEN {} ELSE {"tie_across_a_gap"}) \cup (IF KBarsInOrder THEN {} ELSE {"barlines_out_of_order"})),
+                                      aligned |-> Aligned])))
           /\ ((~Done /\ ~ENABLED TNext) => PrintT(<<"STUCK", Batch[tid].cid, l>>))
 InvTies == KTiesContiguous
 InvBars == KBarsInOrder
